@@ -251,7 +251,11 @@ def generator_rows(name):
         with open(os.path.join(lib.VERIF, 'bindings', 'checkdigit.json')) as fh:
             for key, row in sorted(json.load(fh)['rows'].items()):
                 _GENS.setdefault(key.split(':')[0], []).append((key, row))
-    return _GENS.get(name, [])
+    return _GENS.get(name, []) or _GENS.get(GEN_ALIAS.get(name, ''), [])
+
+
+# thin national wrappers use the generator of the format they wrap
+GEN_ALIAS = {'me.iban': 'iban', 'be.iban': 'iban', 'es.iban': 'iban', 'no.iban': 'iban'}
 
 
 def regenerated(name, mod, v, alphabet='0123456789', positions=None):
@@ -264,6 +268,9 @@ def regenerated(name, mod, v, alphabet='0123456789', positions=None):
         if row.get('domain_re') and not re.search(row['domain_re'], v):
             continue
         f = getattr(mod, key.split('#')[0].split(':')[1], None)
+        if f is None and name in GEN_ALIAS:
+            from vlib import lib as _lib
+            f = getattr(_lib.module(GEN_ALIAS[name]), key.split('#')[0].split(':')[1], None)
         if f is None:
             continue
         try:
